@@ -355,14 +355,23 @@ func (g *gctx) genPar(curT bool, curKeys []int, depth int, single bool) stageOut
 		// two sources that emit the same key: out of the property's domain (finding F-C04)
 		g.injected = true
 		k := g.key()
+		// two or three sources; a random pair of them emits the same key
+		n := g.r.Range(2, 3)
+		a := g.r.Intn(n - 1)
+		b := a + 1 + g.r.Intn(n-1-a)
 		var kids []*Prog
-		for i := 0; i < 2; i++ {
+		keys := []int{k}
+		for i := 0; i < n; i++ {
 			g.budget--
 			kk := k
+			if i != a && i != b {
+				kk = g.key()
+				keys = append(keys, kk)
+			}
 			sp := g.nspec(kindOf(curT, false))
 			kids = append(kids, &Prog{Op: "node", W: &Wrap{Out: &kk}, N: sp})
 		}
-		return stageOut{&Prog{Op: "par", Kids: kids}, []int{k}, false, false}
+		return stageOut{&Prog{Op: "par", Kids: kids}, keys, false, false}
 	}
 	n := g.r.Range(2, 3)
 	var outs []stageOut
